@@ -89,8 +89,9 @@ int main(int argc, char **argv){
   condfn CF[4] = {EuclideanDistanceCondensed, SquaredEuclideanDistanceCondensed, ManhattanDistanceCondensed, CosineDistanceCondensed};
 
   /* exported index map */
-  for(size_t n = 0; rowlo == 0 && n <= 12; n++){
-    static char buf[32768]; int p = 0;
+  for(size_t n = 0; rowlo == 0 && n <= 101; n++){
+    static char buf[1 << 18]; int p = 0;
+    if(n == 41) n = 60; else if(n == 62) n = 100; else if(n == 101) break;   /* every n of the quantifier, then 60, 61, 100 */
     p += snprintf(buf + p, sizeof(buf) - p, "{\"e\":\"Idx\",\"n\":%zu,\"tab\":[", n);
     int first = 1;
     for(size_t i = 0; i < n; i++) for(size_t j = 0; j < n; j++) if(i != j){ p += snprintf(buf + p, sizeof(buf) - p, "%s[%zu,%zu,%zu]", first ? "" : ",", i, j, square_to_condensed_index(i, j, n)); first = 0; }
@@ -163,22 +164,23 @@ int main(int argc, char **argv){
         char site[64]; snprintf(site, 64, "DistanceCondensed:%s", CMN[kind]);
         VALUE(site, rows, th, "vs-square", ok);
         VALUE(site, rows, th, "repeat", vec_eq(c, c2));
-        if(kind == 2 && rows <= 10 && (th == 1 || th == 3 || th == rows + 1)){
-          /* where did each pair really go?  1-D points 2^i -> all |2^i-2^j| distinct */
-          matrix *g; dvector *cg; NewMatrix(&g, rows, 1); for(size_t i = 0; i < rows; i++) g->data[i][0] = ldexp(1.0, (int)i);
-          initDVector(&cg); CF[kind](g, cg, th); nsl = 0;
-          static char buf[32768]; int p = 0, first = 1;
-          p += snprintf(buf + p, sizeof(buf) - p, "{\"e\":\"Cond\",\"n\":%zu,\"th\":%zu,\"size\":%zu,\"pos\":[", rows, th, cg->size);
-          for(size_t i = 0; i < rows; i++) for(size_t j = i + 1; j < rows; j++){
-            double want = ldexp(1.0, (int)j) - ldexp(1.0, (int)i); long pos = -1;
-            for(size_t q = 0; q < cg->size; q++) if(cg->data[q] == want){ pos = (long)q; break; }
-            p += snprintf(buf + p, sizeof(buf) - p, "%s[%zu,%zu,%ld]", first ? "" : ",", i, j, pos); first = 0;
-          }
-          snprintf(buf + p, sizeof(buf) - p, "]}");
-          VRT_EMIT("%s", buf);
-          DelMatrix(&g); DelDVector(&cg);
-        }
         DelMatrix(&a); DelMatrix(&S); DelDVector(&c); DelDVector(&c2);
+      }
+      /* where did each pair really go?  1-D points 2^i -> all |2^i-2^j| distinct (every tier) */
+      if(rows <= 10 && (th == 1 || th == 3 || th == rows + 1)){
+        int kind = 2;
+        matrix *g; dvector *cg; NewMatrix(&g, rows, 1); for(size_t i = 0; i < rows; i++) g->data[i][0] = ldexp(1.0, (int)i);
+        initDVector(&cg); CF[kind](g, cg, th); nsl = 0;
+        static char buf[32768]; int p = 0, first = 1;
+        p += snprintf(buf + p, sizeof(buf) - p, "{\"e\":\"Cond\",\"n\":%zu,\"th\":%zu,\"size\":%zu,\"pos\":[", rows, th, cg->size);
+        for(size_t i = 0; i < rows; i++) for(size_t j = i + 1; j < rows; j++){
+          double want = ldexp(1.0, (int)j) - ldexp(1.0, (int)i); long pos = -1;
+          for(size_t q = 0; q < cg->size; q++) if(cg->data[q] == want){ pos = (long)q; break; }
+          p += snprintf(buf + p, sizeof(buf) - p, "%s[%zu,%zu,%ld]", first ? "" : ",", i, j, pos); first = 0;
+        }
+        snprintf(buf + p, sizeof(buf) - p, "]}");
+        VRT_EMIT("%s", buf);
+        DelMatrix(&g); DelDVector(&cg);
       }
       /* ---- site 10: getLabels_ vs single-thread getLabels */
       if(rows >= 1){
